@@ -756,7 +756,13 @@ def striphir_rule(ctx, r):
     STRIP = "grep_regex::strip::strip_from_match"
     sc = f.calls_to(STRIP)
     tr = [c for c in f.calls() if c.path.endswith("Translator::translate")]
-    lit = [c for c in f.calls() if c.path == "regex_syntax::hir::Hir::literal"]
+    # (the literal HIRs may be built in a closure mapped over the patterns: the site is where the closure is consumed)
+    from ..flow import call_sites as _cs
+
+    class _S:
+        def __init__(self, bb):
+            self.bb = bb
+    lit = [_S(bb_) for bb_, _, _ in _cs(facts, f, "regex_syntax::hir::Hir::literal")]
     fx = cond_switches(f, lambda e: is_call(e, RCFG + "::is_fixed_strings"), eb)
     if len(sc) != 1 or not tr or not lit or not fx:
         r.bad("shape", "anchor-missing: ConfiguredHIR::new (strip %d, translate %d, literal %d, fixed test %d)"
